@@ -30,6 +30,16 @@ ATOMS = {"all": "~all", "http": "~http", "tcp": "~tcp", "udp": "~udp", "dns": "~
          "resp": "~s", "err": "~e", "marked": "~marked"}
 
 
+import pathlib
+_OPENS = []          # (path, mode) of every Path.open performed by the addon during the current event
+
+
+class _RecPath(type(pathlib.Path())):
+    def open(self, mode="r", *a, **kw):
+        _OPENS.append((str(self), mode))
+        return super().open(mode, *a, **kw)
+
+
 class _FakeNow:
     now = 0
     @classmethod
@@ -294,7 +304,7 @@ class Check(PropertyCheck):
         pathid = {"a": 0, "sub/b": 1, "r0": 10, "r1": 11, "r3": 13}
         flows = [make(t) for t in case["types"]]
         idx = {f.id: i for i, f in enumerate(flows)}
-        save.datetime = _FakeNow; _FakeNow.now = 0
+        save.datetime = _FakeNow; _FakeNow.now = 0; save.Path = _RecPath
         lines = ["reset"] + ["edit %d %d" % (i, code_of(f)) for i, f in enumerate(flows)]
         steps, meta = [], []
         raw = {}            # path name -> bytes seen last
@@ -312,6 +322,9 @@ class Check(PropertyCheck):
                     p = os.path.join(d, name)
                     b = open(p, "rb").read() if os.path.isfile(p) else b""
                     old = raw.get(name, b"")
+                    if (p, "wb") in _OPENS and recs.get(name):      # truncated by an overwrite-mode open
+                        add = parse(b); recs[name] = add; raw[name] = b
+                        ch.append([pid, 0, sorted(add)]); continue
                     if b == old: continue
                     if b.startswith(old):
                         add = parse(b[len(old):]); kept = len(recs.get(name, []))
@@ -324,6 +337,7 @@ class Check(PropertyCheck):
 
             for ev in case["events"]:
                 kind = ev[0]
+                del _OPENS[:]
                 if kind in ("hook", "edit") and not (0 <= ev[-1 if kind == "hook" else 1] < len(flows)): continue
                 raised = 0
                 m = {"kind": kind, "opt_file": tctx.options.save_stream_file, "opt_filter": tctx.options.save_stream_filter}
